@@ -65,6 +65,12 @@ def handle (j : Json) : Except String Json := do
     let states ← runOps fetch doc ops
     pure (jobj [("states", jarr states), ("regime", jbool (inRegime fetch doc)),
                 ("linkers", jarr ((linkers doc).map (linkerInfo fetch doc)))])
+  | "split" =>
+    -- the raw text of an include as the setter reads it: `url, path = new_value.split('#', 1)`
+    let txt ← getStr j "text"
+    let r := splitFirst '#' txt.toList
+    pure (jobj [("url", jchars r.1),
+                ("path", match r.2 with | some p => jchars p | none => Json.null)])
   | _ => throw s!"unknown op {op}"
 
 end DrvC12
